@@ -7,7 +7,12 @@ from engine.defuse import defuse_of
 from .common import calls_named, before
 
 EXPLANATION = (
-    "Static rule on http_server.path_join_safe. Decides: (R1) every normal return is dominated by a containment guard between the "
+    "Static rule on http_server.path_join_safe. Decides: (R1) containment - first by partial evaluation of the whole function "
+    "(engine/minieval.py; os.path.abspath / join / normpath replaced by their POSIX string definitions from posixpath, nothing of the "
+    "package is run) on 3 roots x 30 file names without dot components (absolute names, sibling directories sharing the prefix, other "
+    "letter case, doubled slashes): the function returns exactly normpath(join(root, name)) when that is the root or lies beneath root "
+    "+ separator and raises ValueError when it does not; when the function is outside the evaluator's fragment, by the shape rule: "
+    "every normal return is dominated by a containment guard between the "
     "normalised result and the normalised root that raises on failure - recognised forms: `R != root and not R.startswith(root + "
     "sep)` (the separator is required: without it a sibling directory sharing the prefix passes), os.path.commonpath([root, R]) "
     "!= root, os.path.relpath(R, root) starting with '..' - or, alternatively, by both a dot-component guard and an absolute-name "
